@@ -147,12 +147,17 @@ def run_interp(kind, schemes, cvs, dtype, vals_re, vals_im, conv, pts, mesh, use
         oshape = tuple(len(m) for m in mesh)
     kw = {}
     if use_out and oshape is not None:
-        if dtype == 'str':
-            kw['out'] = np.full(oshape, 'z', dtype=f.dtype)
-        elif dtype == 'int64':
-            kw['out'] = np.full(oshape, -77, dtype=f.dtype)
+        odt = f.dtype
+        if use_out == 'badshape':
+            oshape = tuple(oshape[:-1]) + (oshape[-1] + 1,)
+        if use_out == 'baddtype':
+            odt = np.dtype('float32') if f.dtype == np.dtype('float64') else np.dtype('float64')
+        if odt.kind == 'U':
+            kw['out'] = np.full(oshape, 'z', dtype=odt)
+        elif odt.kind == 'i':
+            kw['out'] = np.full(oshape, -77, dtype=odt)
         else:
-            kw['out'] = np.full(oshape, np.nan, dtype=f.dtype)
+            kw['out'] = np.full(oshape, np.nan, dtype=odt)
     with warnings.catch_warnings():
         warnings.simplefilter('ignore')
         old = np.seterr(all='ignore')
@@ -171,7 +176,7 @@ def run_interp(kind, schemes, cvs, dtype, vals_re, vals_im, conv, pts, mesh, use
     r = np.asarray(r)
     if conv == 'single' and r.shape != ():
         return 'OOtherErr', 'single point did not give a scalar'
-    if conv != 'single' and r.shape != oshape:
+    if conv != 'single' and r.shape != tuple(oshape):
         return 'OOtherErr', 'shape %r' % (r.shape,)
     flat = r.ravel()
     if dtype == 'str':
@@ -185,14 +190,16 @@ def run_interp(kind, schemes, cvs, dtype, vals_re, vals_im, conv, pts, mesh, use
     return 'OVals %s []' % C.qs([float(v) for v in flat.tolist()]), flat.tolist()
 
 
-def case_term(kind, schemes, cvs, dtype, vre, vim, conv, pts, mesh, variants, out):
+def case_term(kind, schemes, cvs, dtype, vre, vim, conv, pts, mesh, variants, out, outarg=None):
     kk = {'nearest': 'KNearest', 'linear': 'KLinear', 'per_axis': 'KPerAxis'}[kind]
     dt = {'float64': 'DFloat', 'float32': 'DFloat', 'complex128': 'DFloat', 'int64': 'DInt', 'str': 'DStr'}[dtype]
     inp = ('IMesh %s' % C.qss(mesh)) if conv == 'mesh' else ('IPoints %s' % C.qss(pts))
     return ('{| k_kind := %s; k_ss := %s; k_cvs := %s; k_dt := %s; k_cplx := %s; k_vre := %s; k_vim := %s; '
-            'k_inp := %s; k_int_raises := %s; k_mesh1_raises := %s; k_out := %s |}'
+            'k_inp := %s; k_outarg := %s; k_int_raises := %s; k_mesh1_raises := %s; k_out := %s |}'
             % (kk, C.lst([SCH[s] for s in schemes]), C.qss(cvs), dt, C.b(dtype == 'complex128'),
-               C.qs(vre), C.qs(vim), inp, C.b(variants[0]), C.b(variants[1]), out))
+               C.qs(vre), C.qs(vim), inp,
+               'None' if outarg is None else '(Some (%s%%nat, %s))' % (C.nats(outarg[0]), C.b(outarg[1])),
+               C.b(variants[0]), C.b(variants[1]), out))
 
 
 def interp_cases(rng, tier, variants):
@@ -237,10 +244,20 @@ def interp_cases(rng, tier, variants):
                 pts.append([x for x, _ in p])
                 branches.append([b for _, b in p])
         use_out = conv != 'single' and rng.random() < 0.25
+        if use_out and rng.random() < 0.12:
+            use_out = rng.choice(['badshape', 'baddtype'])        # rejected calls (ValueError)
+        if conv == 'array' and d > 1 and rng.random() < 0.03:
+            pts = [p + [0.0] for p in pts]                        # points of the wrong dimension
+        outarg = None
+        if use_out:
+            osh = [len(m) for m in mesh] if conv == 'mesh' else [len(pts)]
+            if use_out == 'badshape':
+                osh = osh[:-1] + [osh[-1] + 1]
+            outarg = (osh, use_out != 'baddtype')
         out, summ = run_interp(kind, schemes, cvs, dtype, vre, vim, conv, pts, mesh, use_out)
-        term = case_term(kind, schemes, cvs, dtype, vre, vim, conv, pts, mesh, variants, out)
+        term = case_term(kind, schemes, cvs, dtype, vre, vim, conv, pts, mesh, variants, out, outarg)
         desc = {'kind': kind, 'schemes': schemes, 'cvs': cvs, 'dtype': dtype, 'values': vre, 'imag': vim,
-                'conv': conv, 'points': pts, 'mesh': mesh, 'out_arg': bool(use_out), 'branches': branches,
+                'conv': conv, 'points': pts, 'mesh': mesh, 'out_arg': use_out, 'branches': branches,
                 'impl': summ if isinstance(summ, str) else 'values'}
         key = (kind, tuple(schemes), str(cvs), dtype, tuple(vre), tuple(vim), conv, str(pts), str(mesh), use_out)
         cs.add(term, desc, key if len(set(vre)) > 1 else None)
